@@ -540,7 +540,10 @@ class Canonicaliser:
         try:
             if cls is not None:
                 self.unroll_table_loops(fn, cls)
-            from .astutil import inline_local_procedures
+            from .astutil import inline_local_procedures, unroll_literal_loops
+            n_u = unroll_literal_loops(fn)
+            if n_u:
+                self.stats["literal_loops_unrolled"] = self.stats.get("literal_loops_unrolled", 0) + n_u
             n_ = inline_local_procedures(fn)
             if n_:
                 self.stats["local_procedure_calls"] = self.stats.get("local_procedure_calls", 0) + n_
